@@ -389,6 +389,33 @@ pub const VALUE_HINTS: &[&str] = &[
     "Other",
 ];
 
+/// In the description of an environment value the private-use character U+E000 stands for the byte 0xFF (a value
+/// that is not UTF-8).
+pub fn env_bytes(v: &str) -> Vec<u8> {
+    let mut out = Vec::new();
+    for c in v.chars() {
+        if c == '\u{e000}' {
+            out.push(0xff);
+        } else {
+            let mut buf = [0u8; 4];
+            out.extend_from_slice(c.encode_utf8(&mut buf).as_bytes());
+        }
+    }
+    out
+}
+
+fn env_os(v: &str) -> std::ffi::OsString {
+    #[cfg(unix)]
+    {
+        use std::os::unix::ffi::OsStringExt;
+        std::ffi::OsString::from_vec(env_bytes(v))
+    }
+    #[cfg(not(unix))]
+    {
+        std::ffi::OsString::from(v.replace('\u{e000}', "?"))
+    }
+}
+
 fn pred(p: &Pred) -> ArgPredicate {
     match p {
         Pred::IsPresent => ArgPredicate::IsPresent,
@@ -459,7 +486,7 @@ impl ArgSpec {
             // `Arg::env` snapshots the variable at definition time
             let _g = ENV_LOCK.lock().unwrap_or_else(|e| e.into_inner());
             match val {
-                Some(v) => std::env::set_var(name, v),
+                Some(v) => std::env::set_var(name, env_os(v)),
                 None => std::env::remove_var(name),
             }
             a = a.env(name.clone());
@@ -545,17 +572,19 @@ impl ArgSpec {
         }
         if self.plural_builders {
             // the same relations through the plural builder methods
-            if !self.conflicts_with.is_empty() {
-                a = a.conflicts_with_all(self.conflicts_with.iter().cloned());
+            // (the first relation through the singular method, the rest through the plural one: a plural call adds to
+            // what was declared before)
+            if let Some((first, rest)) = self.conflicts_with.split_first() {
+                a = a.conflicts_with(first.clone()).conflicts_with_all(rest.iter().cloned());
             }
-            if !self.overrides_with.is_empty() {
-                a = a.overrides_with_all(self.overrides_with.iter().cloned());
+            if let Some((first, rest)) = self.overrides_with.split_first() {
+                a = a.overrides_with(first.clone()).overrides_with_all(rest.iter().cloned());
             }
             for c in &self.requires {
                 a = a.requires(c.clone());
             }
-            if !self.requires_ifs.is_empty() {
-                a = a.requires_ifs(self.requires_ifs.iter().map(|(p, t)| (pred(p), t.clone())));
+            if let Some(((p0, t0), rest)) = self.requires_ifs.split_first() {
+                a = a.requires_if(pred(p0), t0.clone()).requires_ifs(rest.iter().map(|(p, t)| (pred(p), t.clone())));
             }
         } else {
             for c in &self.conflicts_with {
